@@ -85,6 +85,9 @@ def build_history(rng: random.Random):
         cfgs.extend(f[1] for f in faults[:rng.randint(1, 3)])
         # same configuration, other prefix
         cfgs.append(dict(enc, prefix=['QZAlt', 'QZNs'] if enc.get('prefix') is None else None))
+        # two prefixes that name different namespaces but the same files (A.B / A_B)
+        cfgs.append(dict(enc, prefix=['QZTwin', 'QZNs']))
+        cfgs.append(dict(enc, prefix=['QZTwin_QZNs']))
         models.append({'doc': M.to_json(gen.model), 'cfgs': cfgs})
     steps = []
     for _ in range(rng.randint(3, 12)):
